@@ -134,3 +134,33 @@ class Env:
     def trim_cache(self, limit=4000):
         if len(self.cache) > limit:
             self.cache.clear()
+
+
+def regress_jobs(prop, variants):
+    """Jobs replaying the committed regression descriptors (findings that were fixed): variant 0 is
+    the recorded schedule, the others re-search the schedule with fresh PRNG values."""
+    import glob
+    import os
+
+    here = os.path.dirname(os.path.dirname(os.path.dirname(os.path.abspath(__file__))))
+    jobs = []
+    for f in sorted(glob.glob(os.path.join(here, "regressions", prop + "-*.json"))):
+        for v in range(variants):
+            jobs.append({"prop": prop, "mode": "regress", "file": f, "variant": v, "i": v, "seed": v})
+    return jobs
+
+
+def regress_desc(job):
+    import copy
+
+    with open(job["file"]) as fh:
+        d = json.load(fh)
+    for k in ("class", "observed", "shrink", "unshrunk", "note"):
+        d.pop(k, None)
+    d = copy.deepcopy(d)
+    if job["variant"] > 0:
+        d["decisions"] = None
+        d["sched_seed"] = job["variant"]
+        d["policy"] = "uniform"
+    d["run_seed"] = "regress-%s-%d" % (job["file"].rsplit("/", 1)[-1][:-5], job["variant"])
+    return d
